@@ -1419,7 +1419,9 @@ def substitute_new_temporaries(fn, known_locals: set[str]) -> int:
                     # mutate (`n = len(cache); cache.append(x); n`): such a value may only be used before anything with an effect runs
                     def _plain(e):
                         return isinstance(e, (ast.Name, ast.Constant)) or (isinstance(e, ast.Tuple) and all(_plain(x) for x in e.elts)) or \
-                            (isinstance(e, ast.UnaryOp) and isinstance(e.operand, ast.Constant))
+                            (isinstance(e, ast.UnaryOp) and isinstance(e.operand, ast.Constant)) or \
+                            (isinstance(e, ast.Call) and isinstance(e.func, ast.Name) and e.func.id in _STABLE_BUILTINS and not e.keywords
+                             and all(_plain(a) for a in e.args))  # id(x) / type(x): fixed by WHICH object x is, not by its state
                     heap = not (_plain(st.value) or _stable_attr_alias(st.value))
                     if len(all_loads) == 1 and len(in_next) == 1 and (_whole_value(nxt, in_next[0]) or (_pure(st.value) and not heap) or _used_before_any_effect(nxt, in_next[0])
                                                                         or (_in_header_before_effect(nxt, in_next[0]) and not isinstance(nxt, ast.While))
